@@ -613,6 +613,9 @@ void Interpret::pop(int n) {
     if (config.isIncremental()) {
         if (n < 0) {
             notify_formatted(true, "Incorrect pop command, value is negative.");
+        } else if (static_cast<std::size_t>(n) > main_solver->getAssertionLevel()) {
+            // refused as a whole: no level is popped by a command that is reported as an error
+            notify_formatted(true, "Attempt to pop beyond the top of the stack");
         } else {
             bool success = true;
             while (n-- and success) {
